@@ -97,7 +97,12 @@ func (w *FindRules) Do(ctx *Context, loc *Location) {
 	w.Children = make([]*EvalRule, 0, 0)
 	for id, rule := range rs {
 		Log(DEBUG, ctx, "FindRules.Do", "rid", id)
-		rule.Id = id
+		if rule.Id != id {
+			// Rules from the state's cache are shared between
+			// requests and already carry their id: don't write
+			// to them.
+			rule.Id = id
+		}
 
 		var bss []Bindings
 		var err error
